@@ -64,6 +64,10 @@ func FuncNameAndResult(fn, result string) Option {
 			if result == "*" {
 				return true
 			}
+			if method.Type().NumIn() != 0 {
+				//only a method without parameters can be asked for its result
+				return false
+			}
 			results := method.Call(nil)
 			if len(results) < 1 {
 				return result == ""
